@@ -6,6 +6,8 @@ ITERBUDGET in run_scm_loop the iteration budgets handed to the single-char-loop 
            path (greedy: (min, max); lazy: (min, min) then compute_max(limit = max - min)).
 L1RESET    pikevm Loop1CharBody: whenever a State's ip is set to the loop's continuation, that State's loop1_iters
            is reset to 0 (the field's documented invariant: a fresh loop entry always observes 0).
+           L1COUNT: a State whose pos takes the position reached by the one-character body (a value out of the attempt's
+           Option) has its loop1_iters stored as count + 1 — every branch that iterates counts, or the maximum is lost.
 COPYFID    ir::Node::try_duplicate rebuilds every variant field-for-field: operand i of the constructed node
            derives from field i of the matched node (no swapped children, flags or bounds).
 NARROWCAST in parse.rs a number parsed from the pattern is narrowed (usize -> u32/u16) only after a range
@@ -182,6 +184,36 @@ def check_l1reset(facts):
             r.fail(key, "a state leaves the Loop1CharBody loop (ip = continuation, line %s) without resetting loop1_iters: the next "
                         "single-char loop on that thread starts counting from the stale value" % line, facts.loc(fn, line))
     r.floor("loop_exits", len(stores_ip), 3)
+    # L1COUNT: a state that takes an iteration (its `pos` becomes the position the one-character body reached, a value that comes
+    # out of the Option the body's attempt produced) counts it: the same state's loop1_iters is stored as `<count> + 1`
+    takes = []
+    counts = []
+    for bi, i, s in b.iter_stmts():
+        if s["k"] != "assign":
+            continue
+        f = core.proj_fields(s["pl"])
+        if f[-1:] == ["pos"] and s["rv"]["k"] == "use" and s["rv"]["op"].get("k") in ("copy", "move"):
+            rt, pr = b.root_of(s["rv"]["op"]["pl"]["l"])
+            if any(isinstance(x, dict) and x.get("as") == "Some" for x in pr):
+                takes.append((bi, i, base_of(s["pl"]), s["line"]))
+        if f[-1:] == ["loop1_iters"]:
+            rv = s["rv"]
+            if rv["k"] == "use" and rv["op"].get("k") in ("copy", "move") and not rv["op"]["pl"]["p"]:
+                d = b.single_def(rv["op"]["pl"]["l"])
+                if d and d[2] == "assign":
+                    rv = d[3]["rv"]
+            if rv["k"] in ("bin", "checked_bin") and str(rv.get("op", "")).startswith("Add") and 1 in (b.const_of_operand(rv["a"]), b.const_of_operand(rv["b"])):
+                counts.append((bi, i, base_of(s["pl"])))
+    for k, (bi, i, base, line) in enumerate(takes, 1):
+        key = "%s iteration taken #%d is counted" % (fn, k)
+        ok = any(cb == base and (cbi == bi or b.dominates((cbi, ci), (bi, i)) or b.postdominates((cbi, ci), (bi, i))) for cbi, ci, cb in counts)
+        if ok:
+            r.ok(key, "loop1_iters = count + 1 on the state that advances (line %s)" % line)
+        else:
+            r.fail(key, "a state takes an iteration of the one-character loop (its pos advances, line %s) without its loop1_iters being "
+                        "stored as count + 1: that branch stops counting, so the loop's maximum is no longer enforced (`a??c` on \"aac\" "
+                        "matches 0..3 in the PikeVM, 1..3 in the backtracker)" % line, facts.loc(fn, line))
+    r.floor("iterations_taken", len(takes), 3)
     return r
 
 
@@ -759,59 +791,98 @@ def check_keeplive(facts):
                     flags[l] = src
     n = 0
     arms = {v for v in flags.values()}
+    arm_flag = {}
+    for fl, arm in flags.items():
+        arm_flag.setdefault(arm, set()).add(fl)
+
+    def flag_of_discr(d):
+        """the match_always_fails() flag local a switch discriminant stands for (directly, through copies, or as a field of a tuple
+        built from the flags: `match (left_fails, right_fails)`)"""
+        if d.get("k") not in ("copy", "move"):
+            return None
+        l = d["pl"]["l"]
+        proj = d["pl"]["p"]
+        for _ in range(6):
+            if l in flags and not proj:
+                return l
+            d0 = b.single_def(l)
+            if not d0 or d0[2] != "assign":
+                return None
+            rv = d0[3]["rv"]
+            if proj and rv["k"] == "agg" and rv.get("ak") == "tuple" and len(proj) == 1 and isinstance(proj[0], dict) \
+                    and str(proj[0].get("f", "")).isdigit():
+                op_ = rv["ops"][int(proj[0]["f"])]
+                if op_.get("k") not in ("copy", "move"):
+                    return None
+                l, proj = op_["pl"]["l"], op_["pl"]["p"]
+                continue
+            if not proj and rv["k"] == "use" and rv["op"].get("k") in ("copy", "move"):
+                l, proj = rv["op"]["pl"]["l"], rv["op"]["pl"]["p"]
+                continue
+            return None
+        return None
+    # the flags are booleans computed once: enumerate their values and follow only the consistent edge of every test on them
+    flag_switch = {}
     for bb in sorted(b.reachable()):
         t = b.blocks[bb]["t"]
-        if t["k"] != "switch" or t["discr"]["k"] not in ("copy", "move"):
+        if t["k"] != "switch":
             continue
-        l = t["discr"]["pl"]["l"]
-        d0 = b.single_def(l)
-        if l not in flags and d0 and d0[2] == "assign" and d0[3]["rv"]["k"] == "use" and d0[3]["rv"]["op"]["k"] in ("copy", "move"):
-            l = d0[3]["rv"]["op"]["pl"]["l"]
-        if l not in flags:
-            continue
-        X = flags[l]
-        tt = t["otherwise"]
-        ff = [tg for v, tg in t["targets"] if v == 0]
-        if not ff:
-            continue
-        ff = ff[0]
-        dom = b.dom()
-        reg_t = {x for x in b.reachable() if tt in dom[x] and ff not in dom[x]}
-        reg_f = {x for x in b.reachable() if ff in dom[x] and tt not in dom[x]}
+        fl = flag_of_discr(t["discr"])
+        if fl is not None:
+            f_edge = [tg for v, tg in t["targets"] if v == 0]
+            flag_switch[bb] = (fl, t["otherwise"], f_edge[0] if f_edge else None)
+    flag_blocks = [b.single_def(l)[0] for l in flags]
+    dom = b.dom()
+    succ = b.succ()
+    fl_list = sorted(flags)
 
-        def taken(region):
-            out = set()
-            for x in region:
-                for s in b.blocks[x]["s"]:
-                    pl = _arm_access(s)
-                    if pl is not None and pl["l"] in arms:
-                        out.add(pl["l"])
-            return out
-        kt, kf = taken(reg_t), taken(reg_f)
-        if not kt and not kf:
+    def reach_under(vals):
+        seen, stack = set(), [0]
+        while stack:
+            x = stack.pop()
+            if x in seen:
+                continue
+            seen.add(x)
+            if x in flag_switch:
+                fl, te, fe = flag_switch[x]
+                nxt = [te] if vals[fl] else ([fe] if fe is not None else [])
+            else:
+                nxt = succ.get(x, [])
+            stack.extend(nxt)
+        return seen
+    import itertools
+    reach_by = {}
+    for combo in itertools.product([False, True], repeat=len(fl_list)):
+        vals = dict(zip(fl_list, combo))
+        reach_by[combo] = (vals, reach_under(vals))
+    seen_sites = set()
+    for bi, i, st in b.iter_stmts():
+        apl = _arm_access(st)
+        if apl is None or apl["l"] not in arms:
             continue
+        if bi in flag_blocks or not all(fb in dom[bi] for fb in flag_blocks):
+            continue  # receivers of the match_always_fails() calls themselves
+        if st["rv"]["k"] == "ref" and st["rv"].get("m") != "mut":
+            continue
+        X = apl["l"]
+        if (bi, X) in seen_sites:
+            continue
+        seen_sites.add((bi, X))
         n += 1
-        key = "%s selection on %s.match_always_fails()" % (fn, b.local_name(X))
-        if X in kt or (kf and kf != {X}):
-            r.fail(key, "the alternation is replaced by an arm chosen wrongly: on the `%s fails` edge it takes %s, on the other edge %s — the "
-                        "arm that can never match is kept" % (b.local_name(X), sorted(b.local_name(x) for x in kt), sorted(b.local_name(x) for x in kf)),
-                   facts.loc(fn, t.get("line")))
+        key = "%s keeps `%s` only where it can match" % (fn, b.local_name(X))
+        if not flag_switch:
+            r.fail(key, "the arm `%s` is taken (line %s) although no test of match_always_fails() separates the cases: the arm that can never "
+                        "match may be kept" % (b.local_name(X), st["line"]), facts.loc(fn, st["line"]))
+            continue
+        bad = [vals for vals, reach in reach_by.values() if bi in reach and any(vals[fl] for fl in arm_flag.get(X, ()))]
+        if bad:
+            r.fail(key, "an arm of the alternation (`%s`) is taken at line %s in a case where %s.match_always_fails() is true (%s): the arm "
+                        "that can never match is kept and the alternation becomes unmatchable" % (
+                            b.local_name(X), st["line"], b.local_name(X),
+                            ", ".join("%s=%s" % (b.local_name(k) or k, v) for k, v in sorted(bad[0].items()))), facts.loc(fn, st["line"]))
         else:
-            r.ok(key, "true edge keeps %s, false edge keeps %s" % (sorted(b.local_name(x) for x in kt), sorted(b.local_name(x) for x in kf)))
-    if n == 0:
-        # no selection at all: is an arm still taken?
-        flag_blocks = [b.single_def(l)[0] for l in flags]
-        dom = b.dom()
-        for bi, i, s in b.iter_stmts():
-            apl = _arm_access(s)
-            if bi in flag_blocks or not all(fb in dom[bi] for fb in flag_blocks):
-                continue  # receivers of the match_always_fails() calls themselves
-            if apl is not None and apl["l"] in arms and not (s["rv"]["k"] == "ref" and s["rv"].get("m") != "mut"):
-                r.fail("%s selection on match_always_fails()" % fn, "an arm of the alternation (`%s`) is taken unconditionally (line %s) although "
-                       "which arm survives depends on match_always_fails(): the arm that can never match may be kept" % (
-                           b.local_name(apl["l"]), s["line"]), facts.loc(fn, s["line"]))
-                n += 1
-                break
+            r.ok(key, "line %s is only reached when %s does not always fail" % (st["line"], b.local_name(X)))
+            r.sample({"function": fn, "arm": b.local_name(X), "line": st["line"]})
     r.floor("arm_selections", n, 1)
     return r
 
@@ -1329,6 +1400,144 @@ def check_execstate(facts):
     return r
 
 
+# ---- PASSES ---------------------------------------------------------------------------------
+
+def check_passes(facts):
+    import json as _j
+    import os as _os
+    r = RuleResult("PASSES", "the IR rewrites the optimizer runs are exactly the reviewed ones: every function (or closure) handed to "
+                             "optimizer::run_pass, anywhere, is listed in tables/optimizer_passes.json with the rules that decide its structural "
+                             "conditions, and PassAction::Replace / Remove values are produced only inside those passes. A rewrite has to preserve "
+                             "captures as well as matches — `x?` is not `(?:x|)`: the loop rejects an empty iteration and resets the groups inside, "
+                             "the alternation keeps the capture — so a new pass is reported until it has been reviewed")
+    tab = _j.load(open(_os.path.join(core.VERIF, "tables", "optimizer_passes.json")))
+    tab.pop("_comment", None)
+    seen = set()
+    n = 0
+    for fn in sorted(facts.body_names()):
+        if "::tests::" in fn:
+            continue
+        b = facts.body(fn)
+        for bb, t in b.iter_calls():
+            cal = t.get("callee") or ""
+            if not cal.endswith("optimizer::run_pass") and cal != "optimizer::run_pass":
+                continue
+            n += 1
+            fty = str((t.get("func") or {}).get("ty") or "")
+            m = re.findall(r"PassAction \{([^{}]+?)\}", fty)
+            names = {x.strip() for x in m}
+            if not names:
+                m2 = re.findall(r"\{closure[^}]*\}|\[closure[^\]]*\]", fty)
+                names = {"closure in " + fn} if m2 or "closure" in fty else {"?"}
+            for nm in sorted(names):
+                seen.add(nm)
+                key = "pass %s" % nm
+                own = nm if nm in tab else None
+                if own:
+                    r.ok(key, tab[own][:120])
+                    r.sample({"pass": nm, "run_from": fn, "line": t.get("line")})
+                else:
+                    r.fail(key, "%s (line %s) runs the IR rewrite `%s`, which is not in the reviewed pass list: nothing decides that it "
+                                "preserves captures and matches (e.g. lowering `x?` to `(?:x|)` keeps an empty capture the loop would reset)" % (
+                                    fn, t.get("line"), nm), facts.loc(fn, t.get("line")))
+    r.floor("run_pass_calls", n, 6)
+    # Replace / Remove are only produced inside the passes (or functions owned by one)
+    np_ = 0
+    for fn in sorted(facts.body_names()):
+        if "::tests::" in fn:
+            continue
+        b = facts.body(fn)
+        makes = [s for bi, i, s in b.iter_stmts() if s["k"] == "assign" and s["rv"]["k"] == "agg" and str(s["rv"].get("adt", "")).endswith("PassAction")
+                 and str(s["rv"].get("variant")) in ("Replace", "Remove")]
+        if not makes:
+            continue
+        np_ += 1
+        base = re.sub(r"::\{closure#\d+\}", "", fn)
+        owner = base if base in tab else facts.owner_of(base)
+        key = "%s builds PassAction::%s" % (base, makes[0]["rv"].get("variant"))
+        if owner in tab:
+            r.ok(key, "inside the reviewed pass %s" % owner)
+        else:
+            r.fail(key, "a node replacement / removal is produced (line %s) outside the reviewed passes" % makes[0]["line"], facts.loc(fn, makes[0]["line"]))
+    r.floor("functions_producing_replacements", np_, 4)
+    return r
+
+
+# ---- ITERREL --------------------------------------------------------------------------------
+
+def check_iterrel(facts):
+    r = RuleResult("ITERREL", "the crate's iterators (api::Groups, api::NamedGroups, exec::Matches) implement `next`; any other Iterator method an "
+                              "impl overrides (nth, advance_by, fold, ...) has to agree with the `next`-based default on a partly consumed "
+                              "iterator. Decided structurally: a store such a method makes to a cursor field (a field of self that `next` "
+                              "stores to) computes the new value from the field's old value — a relative move. `self.idx = n` in `nth` is "
+                              "right only on a fresh iterator: after `g.next()`, `g.nth(0)` yields group 0 again, and groups() disagrees with "
+                              "group(i)")
+    impls = {}
+    for fn in facts.body_names():
+        m = re.match(r"^<(.+) as std::iter::(?:traits::\w+::)?(Iterator|DoubleEndedIterator|ExactSizeIterator)>::(\w+)$", fn)
+        if m and "::tests::" not in fn:
+            impls.setdefault(m.group(1), {})[m.group(3)] = fn
+    r.floor("iterator_impls", len(impls), 3)
+
+    def stores(b):
+        out = []
+        for bi, i, st in b.iter_stmts():
+            if st["k"] != "assign" or not st["pl"]["p"]:
+                continue
+            rt, pr = b.root_of(st["pl"]["l"])
+            fl = [x.get("f") for x in pr if isinstance(x, dict) and "f" in x] + core.proj_fields(st["pl"])
+            if rt == 1 and fl:
+                out.append((fl[0], st))
+        return out
+
+    def reads_field(b, op, field, depth=0, seen=None):
+        seen = seen if seen is not None else set()
+        if op.get("k") not in ("copy", "move") or depth > 12:
+            return False
+        rt, pr = b.root_of(op["pl"]["l"])
+        fl = [x.get("f") for x in pr if isinstance(x, dict) and "f" in x] + core.proj_fields(op["pl"])
+        if rt == 1 and fl and fl[0] == field:
+            return True
+        l = op["pl"]["l"]
+        if l in seen:
+            return False
+        seen.add(l)
+        for bi, si, kind, pay in b.defs().get(l, []):
+            if kind == "call":
+                if any(reads_field(b, a, field, depth + 1, seen) for a in pay["args"]):
+                    return True
+                continue
+            rv = pay["rv"]
+            ops = [rv[k] for k in ("op", "a", "b") if isinstance(rv.get(k), dict)] + list(rv.get("ops") or [])
+            if rv["k"] in ("ref", "copy_for_deref") and "pl" in rv:
+                ops.append({"k": "copy", "pl": rv["pl"]})
+            if any(reads_field(b, o, field, depth + 1, seen) for o in ops):
+                return True
+        return False
+    nm = 0
+    for impl, methods in sorted(impls.items()):
+        if "next" not in methods:
+            continue
+        cursor = {f_ for f_, _ in stores(facts.body(methods["next"]))}
+        for mname, fn in sorted(methods.items()):
+            if mname in ("next", "next_back"):
+                continue
+            nm += 1
+            b = facts.body(fn)
+            bad = [(f_, st) for f_, st in stores(b) if f_ in cursor and not (st["rv"]["k"] in ("bin", "checked_bin") and any(
+                reads_field(b, o, f_) for o in (st["rv"]["a"], st["rv"]["b"]))) and not (
+                    st["rv"]["k"] in ("use", "cast") and reads_field(b, st["rv"]["op"], f_))]
+            key = "%s::%s moves the cursor relatively" % (impl, mname)
+            if bad:
+                r.fail(key, "`%s` of the iterator %s stores to the cursor field `%s` (line %s) a value that does not depend on the field's "
+                            "old value: correct on a fresh iterator only — after next() the override disagrees with the next()-based default" % (
+                                mname, impl, bad[0][0], bad[0][1]["line"]), facts.loc(fn, bad[0][1]["line"]))
+            else:
+                r.ok(key, "no absolute store to %s" % (sorted(cursor) or "a cursor field"))
+    r.floor("iterator_methods_besides_next", nm, 2)
+    return r
+
+
 # ---- MONOID ---------------------------------------------------------------------------------
 
 def check_monoid(facts):
@@ -1515,7 +1724,7 @@ def check_rangeorder(facts):
                 r.fail(key, "Interval{first: %s, last: %s} is built at line %s without a dominating test that `%s <= %s` (reversed ranges are "
                             "not rejected on this path): `[xb-a]` panics in checked builds and corrupts the set in release instead of returning "
                             "a syntax error" % (b.local_name(ra), b.local_name(rb), s["line"], b.local_name(ra), b.local_name(rb)), facts.loc(fn, s["line"]))
-    r.floor("parsed_ranges", n, 3)
+    r.floor("parsed_ranges", n, 2)
     return r
 
 
@@ -1629,6 +1838,27 @@ def check_predsound(facts):
                 else:
                     r.ok(key, "no path around the call inside the loop")
                     r.sample({"function": fn, "loop_header_block": h})
+    # GROWONLY: the byte sets of start predicates are only ever extended
+    ALLOWED = {"set", "bitor", "new", "default", "add_utf8_first_bytes_to_bitmap", "deref_mut", "deref", "as_mut", "as_ref", "count_bits",
+               "as_array", "contains", "clone", "find_in", "fmt", "eq"}
+    nmut = 0
+    for fnm in sorted(facts.body_names()):
+        if not fnm.startswith("startpredicate::") or "::tests::" in fnm:
+            continue
+        bb_ = facts.body(fnm)
+        for blk, t in bb_.iter_calls():
+            cal = t.get("callee") or ""
+            if "ByteBitmap" not in cal and not cal.startswith("util::add_utf8_first_bytes_to_bitmap"):
+                continue
+            last = cal.split("::")[-1]
+            nmut += 1
+            if last not in ALLOWED:
+                r.fail("%s bitmap operation %s" % (fnm, last), "the start predicate's byte set is modified through `%s` (line %s): only operations "
+                       "that add bytes (set, bitor, add_utf8_first_bytes_to_bitmap) keep it a superset of the possible first bytes; removing a "
+                       "lead byte (0xED is shared by U+D000..U+D7FF and the surrogates) makes the prefilter skip real matches" % (last, t.get("line")),
+                       facts.loc(fnm, t.get("line")))
+    if nmut:
+        r.ok("startpredicate byte sets only grow", "%d bitmap operations, all additive" % nmut)
     # PREFIX
     fn = "startpredicate::AbstractStartPredicate::disjunction"
     if not facts.has_body(fn):
@@ -1723,4 +1953,197 @@ def check_charsetall(facts):
     else:
         r.fail(key, "charset_contains does not look at every slot of the %s-slot set (iterates whole array: %s, skipping adaptors: %s, constant "
                     "indices read: %s): members stored in the unread slots never match" % (n_slots, bool(iters), skipping, sorted(idx)), facts.loc(fn))
+    return r
+
+
+# ---- INCLAST --------------------------------------------------------------------------------
+
+def check_inclast(facts):
+    r = RuleResult("INCLAST", "case-fold ranges and the intervals walked in unicode.rs are closed: a value obtained from `.last()` (or bound to a "
+                              "`*last*` local from it) is the *last member*. Every comparison of such a bound with a walking code point is, in "
+                              "canonical form, `last < x` or its negation (`x <= last`, `last < x`, ...), never `x < last`: the strict form ends a "
+                              "stride walk one pair early, so the last pair of a strided fold range is missing from a case-closed class")
+
+    def bound_kind(b, op, depth=0):
+        """'last' if the operand is an inclusive upper bound, else None"""
+        if op.get("k") not in ("copy", "move") or depth > 6:
+            return None
+        l = op["pl"]["l"]
+        fl = core.proj_fields(op["pl"])
+        if fl and fl[-1] == "last":
+            return "last"
+        nm = b.local_name(l) or ""
+        if "last" in nm:
+            return "last"
+        d = b.single_def(l)
+        if d and d[2] == "call" and (d[3].get("callee") or "").split("::")[-1] == "last":
+            return "last"
+        if d and d[2] == "assign" and d[3]["rv"]["k"] in ("use", "cast") and d[3]["rv"]["op"].get("k") in ("copy", "move"):
+            return bound_kind(b, d[3]["rv"]["op"], depth + 1)
+        return None
+    n = 0
+    for fn in sorted(facts.body_names()):
+        if not fn.startswith("unicode::") or "::tests::" in fn:
+            continue
+        b = facts.body(fn)
+        k = 0
+        for bi, i, s in b.iter_stmts():
+            if s["k"] != "assign" or s["rv"]["k"] != "bin" or s["rv"]["op"] not in ("Lt", "Le", "Gt", "Ge"):
+                continue
+            ka, kb = bound_kind(b, s["rv"]["a"]), bound_kind(b, s["rv"]["b"])
+            if (ka == "last") == (kb == "last"):
+                continue
+            n += 1
+            k += 1
+            op = s["rv"]["op"]
+            last_left = ka == "last"
+            # canonical `lo < hi` (non-strict folded into the negated reverse)
+            lo_is_last = (last_left and op in ("Lt",)) or ((not last_left) and op in ("Gt",)) or \
+                         ((not last_left) and op in ("Le",)) or (last_left and op in ("Ge",))
+            key = "%s test against an inclusive last #%d" % (re.sub(r"::\{closure#\d+\}", "", fn), k)
+            if lo_is_last:
+                r.ok(key, "`last < x` form")
+                r.sample({"function": fn, "line": s["line"], "op": op})
+            else:
+                r.fail(key, "the comparison at line %s treats the inclusive bound `last` as exclusive (canonical form `x < last`): the last "
+                            "member of the range is never visited" % s["line"], facts.loc(fn, s["line"]))
+    r.floor("inclusive_bound_tests", n, 4)
+    return r
+
+
+# ---- DEPTHBAL -------------------------------------------------------------------------------
+
+def check_depthbal(facts):
+    r = RuleResult("DEPTHBAL", "the parser's nesting counter (`self.depth`) is a depth, not a count: a function that increments it decrements it "
+                               "again on every path to a successful return (cut-set reachability from the increment to each `Ok(..)` / tail "
+                               "return, avoiding the decrements; `?` / `return error(..)` exits abort the parse and are exempt). A missing "
+                               "decrement makes every nested class consume a level for the rest of the pattern: the 257th `[[a][b]…]` operand is "
+                               "rejected as 'too deeply nested' at real depth 2")
+    n = 0
+    for fn in sorted(facts.body_names()):
+        if not fn.startswith("parse::") or "{closure" in fn:
+            continue
+        b = facts.body(fn)
+        incs, decs = [], set()
+        for bi, i, s in b.iter_stmts():
+            if s["k"] != "assign" or "*" not in s["pl"]["p"] or core.proj_fields(s["pl"])[-1:] != ["depth"]:
+                continue
+            src = s["rv"]
+            if src["k"] == "use" and src["op"].get("k") in ("copy", "move"):
+                d0 = b.single_def(src["op"]["pl"]["l"])
+                if d0 and d0[2] == "assign":
+                    src = d0[3]["rv"]
+            op = str(src.get("op", "")) if src["k"] in ("bin", "checked_bin") else ""
+            if op.startswith("Add"):
+                incs.append((bi, s["line"]))
+            elif op.startswith("Sub"):
+                decs.add(bi)
+        if not incs:
+            continue
+        ok_rets = []
+        for bi, i, s in b.iter_stmts():
+            if s["k"] == "assign" and s["pl"]["l"] == 0 and not s["pl"]["p"] and s["rv"]["k"] == "agg" and str(s["rv"].get("variant")) in ("Ok", "Some"):
+                ok_rets.append((bi, s["line"]))
+        for bb, t in b.iter_calls():
+            if t["dest"]["l"] == 0 and not t["dest"]["p"]:
+                last = (t.get("callee") or "").split("::")[-1]
+                if last in ("from_residual", "error"):
+                    continue
+                ok_rets.append((bb, t.get("line")))
+        for k, (ib, iline) in enumerate(incs, 1):
+            n += 1
+            key = "%s depth increment #%d is undone" % (fn, k)
+            reach = b.reach_from(ib, avoid=decs - {ib})
+            leak = [ln for rb, ln in ok_rets if rb in reach and rb not in decs]
+            if leak:
+                r.fail(key, "after `self.depth += 1` (line %s) a successful return (line %s) is reachable without `self.depth -= 1`: the level "
+                            "stays consumed for the rest of the pattern" % (iline, leak[0]), facts.loc(fn, iline))
+            else:
+                r.ok(key, "every successful exit passes the decrement")
+                r.sample({"function": fn, "increment_line": iline, "decrement_blocks": len(decs)})
+    r.floor("depth_increments", n, 2)
+    return r
+
+
+# ---- UNROLLBOUND ----------------------------------------------------------------------------
+
+def check_unrollbound(facts):
+    r = RuleResult("UNROLLBOUND", "optimizer::unroll_loops duplicates the loop body `quant.min` times: the loop that does so is dominated by a test "
+                                  "of that same `quant.min` against a constant (LOOP_UNROLL_THRESHOLD) whose other edge answers Keep, so the size "
+                                  "of the unrolled program is bounded by a constant, not by a number written in the pattern. A test on `max` "
+                                  "instead leaves `x{1000000,}` (max = None) unrolled a million times")
+    fn = "optimizer::unroll_loops"
+    if not facts.has_body(fn):
+        r.error("anchor %s not found" % fn)
+        return r
+    b = facts.body(fn)
+    from .lbseq import natural_loops as _nl
+    dups = [bb for bb, t in b.iter_calls() if (t.get("callee") or "").endswith("try_duplicate")]
+    clos = []
+    for cl in [n_ for n_ in facts.body_names() if n_.startswith(fn + "::{closure")]:
+        if any((t.get("callee") or "").endswith("try_duplicate") for _, t in facts.body(cl).iter_calls()):
+            clos.append(cl)
+    if not dups and not clos:
+        r.error("unroll_loops no longer calls try_duplicate")
+        return r
+
+    def is_min(op):
+        if op.get("k") not in ("copy", "move"):
+            return False
+        rt, pr = b.root_of(op["pl"]["l"])
+        fl = [x.get("f") for x in pr if isinstance(x, dict) and "f" in x] + core.proj_fields(op["pl"])
+        return fl[-1:] == ["min"]
+    # where the duplication is driven from: the try_duplicate call blocks, or the block that creates the duplicating closure / range
+    sites = list(dups)
+    for bi, i, s in b.iter_stmts():
+        if s["k"] == "assign" and s["rv"]["k"] == "agg" and (s["rv"].get("ak") == "closure" and any(str(s["rv"].get("def", "")).endswith(c.split("::")[-1]) for c in clos)):
+            sites.append(bi)
+    dom = b.dom()
+    n = 0
+    for sb in sorted(set(sites)):
+        n += 1
+        key = "%s duplication is bounded by a test on quant.min" % fn
+        found = None
+        for d in dom[sb]:
+            t = b.blocks[d]["t"]
+            if t["k"] != "switch" or t["discr"].get("k") not in ("copy", "move"):
+                continue
+            # value sources of the discriminant incl. `a || b` control dependence: look for Gt/Ge/Lt/Le(min, const)
+            stack, seen = [t["discr"]["pl"]["l"]], set()
+            while stack:
+                l = stack.pop()
+                if l in seen:
+                    continue
+                seen.add(l)
+                for _bi, _si, kind, pay in b.defs().get(l, []):
+                    if kind != "assign":
+                        continue
+                    rv = pay["rv"]
+                    if rv["k"] == "bin" and rv["op"] in ("Gt", "Ge", "Lt", "Le"):
+                        def is_k(o):
+                            if o.get("k") == "const":
+                                return True
+                            if b.const_of_operand(o) is not None:
+                                return True
+                            if o.get("k") in ("copy", "move") and not o["pl"]["p"]:
+                                dk = b.single_def(o["pl"]["l"])
+                                return bool(dk) and dk[2] == "assign" and dk[3]["rv"]["k"] in ("use", "cast") and dk[3]["rv"]["op"].get("k") == "const"
+                            return False
+                        if (is_min(rv["a"]) and is_k(rv["b"])) or (is_min(rv["b"]) and is_k(rv["a"])):
+                            # `min == 0` is not a bound: the constant must be an upper limit (Gt/Ge with min on the left, Lt/Le on the right)
+                            upper = (is_min(rv["a"]) and rv["op"] in ("Gt", "Ge", "Le", "Lt")) or (is_min(rv["b"]) and rv["op"] in ("Lt", "Le", "Gt", "Ge"))
+                            if upper:
+                                found = pay.get("line")
+                    for k_ in ("op", "a", "b"):
+                        o = rv.get(k_)
+                        if isinstance(o, dict) and o.get("k") in ("copy", "move") and not o["pl"]["p"]:
+                            stack.append(o["pl"]["l"])
+        if found:
+            r.ok(key, "threshold test at line %s" % found)
+            r.sample({"function": fn, "threshold_test_line": found})
+        else:
+            r.fail(key, "the duplication of the loop body is not dominated by a comparison of `quant.min` with a constant: the number of copies "
+                        "is whatever the pattern says (`x{1000000,}`), so compile time and memory are unbounded", facts.loc(fn, b.blocks[sb]["t"].get("line")))
+        break
+    r.floor("duplication_sites", n, 1)
     return r
